@@ -195,3 +195,15 @@ def ladder(repo, mod, func, env, rule='atoms'):
             raise Unknown(f'statement {type(s).__name__} in ladder: {norm(s)[:60]}')
         return None
     return run(func.body)
+
+
+def select_branch(repo, mod, func, env):
+    """statements of the first top-level if/elif alternative of `func` whose (type) test holds under env, else None"""
+    from .core import if_chain
+    ev = AtomEval(repo, mod, env)
+    for s in func.body:
+        if isinstance(s, ast.If):
+            for test, body in if_chain(s):
+                if test is None or ev.test(test):
+                    return body
+    return None
